@@ -4,15 +4,18 @@ import (
 	"bytes"
 	"context"
 	"crypto/sha256"
+	"encoding/base64"
 	"encoding/hex"
 	"encoding/json"
 	"fmt"
 	"os"
 	"os/exec"
 	"path/filepath"
+	"strconv"
 	"strings"
 	"sync"
 	"time"
+	"unicode/utf8"
 )
 
 // NativeResult is the observation of the gc-built program.
@@ -22,6 +25,7 @@ type NativeResult struct {
 	Exit     int    `json:"exit"`
 	BuildErr string `json:"build_err,omitempty"`
 	Timeout  bool   `json:"timeout,omitempty"`
+	OutB64   string `json:"out_b64,omitempty"` // Out when it is not valid UTF-8
 }
 
 // Ending maps the native exit to the same vocabulary as Result.Ending.
@@ -57,7 +61,7 @@ func (n *NativeResult) PanicLine() string {
 
 var nativeSem = make(chan struct{}, 14)
 
-const goVersionTag = "go1.23-lang1.22-v1"
+const goVersionTag = "go1.23-lang1.22-v2"
 
 // Native builds and runs a set of files as a main package (files: relative name -> source),
 // cached by content. The reference does not depend on /repo.
@@ -92,6 +96,12 @@ func NativeEnv(files map[string]string, scratch string, env []string, stdin stri
 	if b, err := os.ReadFile(cpath); err == nil {
 		var r NativeResult
 		if json.Unmarshal(b, &r) == nil {
+			if r.OutB64 != "" {
+				if raw, err := base64.StdEncoding.DecodeString(r.OutB64); err == nil {
+					r.Out = string(raw)
+				}
+				r.OutB64 = ""
+			}
 			nativeMu.Lock()
 			nativeHits++
 			nativeMu.Unlock()
@@ -130,7 +140,11 @@ func NativeEnv(files map[string]string, scratch string, env []string, stdin stri
 		}
 		return res // build errors are not cached (could be environmental)
 	}
-	ctx, cancel := context.WithTimeout(context.Background(), 120*time.Second)
+	to := 120 * time.Second
+	if v, err := strconv.Atoi(os.Getenv("VERIF_NATIVE_TIMEOUT")); err == nil && v > 0 {
+		to = time.Duration(v) * time.Second
+	}
+	ctx, cancel := context.WithTimeout(context.Background(), to)
 	defer cancel()
 	run := exec.CommandContext(ctx, bin)
 	run.Dir = dir
@@ -159,7 +173,12 @@ func NativeEnv(files map[string]string, scratch string, env []string, stdin stri
 		}
 	}
 	os.MkdirAll(cdir, 0o755)
-	b, _ := json.Marshal(res)
+	stored := *res
+	if !utf8.ValidString(stored.Out) {
+		stored.OutB64 = base64.StdEncoding.EncodeToString([]byte(stored.Out))
+		stored.Out = ""
+	}
+	b, _ := json.Marshal(&stored)
 	tmp := fmt.Sprintf("%s.%d.tmp", cpath, os.Getpid())
 	if os.WriteFile(tmp, b, 0o644) == nil {
 		os.Rename(tmp, cpath)
